@@ -1,8 +1,11 @@
 #!/bin/bash
-# selftest_one.sh seeded|sensitivity: one of the two sensitivity self-tests of
-# tools/selftests.sh, so that both can run side by side. Not a registered command.
-kind=$1
+# selftest_one.sh seeded|sensitivity OUTSUFFIX [names...]: one of the two
+# sensitivity self-tests of tools/selftests.sh (optionally restricted to the
+# named properties / entries), so that several can run side by side. Not a
+# registered command.
+kind=$1; suf=$2; shift 2
 export VERIF_WORKERS=${WORKERS:-6}
 head=$(git -C /repo rev-parse --short HEAD)
-{ echo "# ./check selftest $kind — /repo $head — $(date -u +%FT%TZ)"; ./check selftest $kind 2>&1 | cut -c1-180; } > /verif/evidence/selftest-$kind.txt
-tail -1 /verif/evidence/selftest-$kind.txt
+out=/verif/evidence/selftest-$kind$suf.txt
+{ echo "# ./check selftest $kind $* — /repo $head — $(date -u +%FT%TZ)"; ./check selftest $kind "$@" 2>&1 | stdbuf -oL cut -c1-180; } > $out
+tail -1 $out
